@@ -711,9 +711,9 @@ def check(c):
         ok, P = check_group(c, binp, g, cases, cap, stats, f"corpus {name}")
         allok = allok and ok
     # ---- generated cases
-    npat = 6 if c.tier == "quick" else 40
+    npat = 10 if c.tier == "quick" else 40
     rounds = 1 if c.tier == "quick" else 4
-    groups = GROUPS[:2] if c.tier == "quick" else GROUPS
+    groups = GROUPS[:3] if c.tier == "quick" else GROUPS
     P0 = {"fsize": 410, "fshift": 160, "nmfc": 128}
     nvar = 0
     distinct = set()
